@@ -85,7 +85,9 @@ Fixpoint ext_add (e : list (N * bytes)) (t : N) (d : bytes) : list (N * bytes) :
   end.
 
 Section Machine.
-  Variables (hold : bool) (hook : list hop) (rmp lws lmp : N).
+  (** [radj] = what the application does from inside dataReceived()/extReceived(): [Some n] = it calls
+      conn.adjustWindow(channel, n) synchronously, [None] = nothing *)
+  Variables (hold : bool) (hook : list hop) (radj : option N) (rmp lws lmp : N).
 
   (** SSHConnection.channelClosed / sendClose / sendData / sendExtendedData / adjustWindow *)
   Definition channel_closed (s : st) : st :=
@@ -163,7 +165,8 @@ Section Machine.
     if (lwl s <? n) || (lmp <? n) then send_close s else
     let s1 := set_lwl (lwl s - n) s in
     let s2 := if lwl s1 <? lws / 2 then adjust_window s1 (lws - lwl s1) else s1 in
-    emit (cb d) s2.
+    let s3 := emit (cb d) s2 in
+    match radj with Some n => adjust_window s3 n | None => s3 end.
 
   (** SSHConnection.ssh_CHANNEL_WINDOW_ADJUST / ssh_CHANNEL_CLOSE (closeReceived = loseConnection) *)
   Definition recv_adjust (s : st) (n : N) : st :=
@@ -232,13 +235,13 @@ Definition xdata_at (hook : list hop) (s : st) (o : op) : list (N * N) :=
   xdata o ++ (if fires s o then hook_x hook else []).
 
 Section Written.
-  Variables (hold : bool) (hook : list hop) (rmp lws lmp : N).
+  Variables (hold : bool) (hook : list hop) (radj : option N) (rmp lws lmp : N).
   (** everything handed to write() (resp. writeExtended()) along a history, in call order, including the calls made
       re-entrantly from startWriting() *)
   Fixpoint hwritten (s : st) (ops : list op) : bytes :=
-    match ops with [] => [] | o :: r => wdata_at hook s o ++ hwritten (step hold hook rmp lws lmp s o) r end.
+    match ops with [] => [] | o :: r => wdata_at hook s o ++ hwritten (step hold hook radj rmp lws lmp s o) r end.
   Fixpoint hxwritten (s : st) (ops : list op) : list (N * N) :=
-    match ops with [] => [] | o :: r => xdata_at hook s o ++ hxwritten (step hold hook rmp lws lmp s o) r end.
+    match ops with [] => [] | o :: r => xdata_at hook s o ++ hxwritten (step hold hook radj rmp lws lmp s o) r end.
 End Written.
 
 (** receive side *)
